@@ -716,7 +716,36 @@ func (db *Default) removeDevice(ctx context.Context, id agd.DeviceID) {
 	db.mapsMu.Lock()
 	defer db.mapsMu.Unlock()
 
+	// Recheck the data under the write lock, since the database could have
+	// been synchronized after the cleanup had been scheduled, in which case
+	// the entry may now be valid again.
+	profID, ok := db.deviceIDToProfileID[id]
+	if !ok {
+		return
+	}
+
+	p, ok := db.profiles[profID]
+	if ok && (p.AutoDevicesEnabled || slices.Contains(p.DeviceIDs, id)) {
+		return
+	}
+
 	delete(db.deviceIDToProfileID, id)
+}
+
+// attachedDevice returns the device with the given ID if it is currently
+// attached to an existing profile.  It assumes that db.mapsMu is locked.
+func (db *Default) attachedDevice(id agd.DeviceID) (d *agd.Device) {
+	profID, ok := db.deviceIDToProfileID[id]
+	if !ok {
+		return nil
+	}
+
+	p, ok := db.profiles[profID]
+	if !ok || !slices.Contains(p.DeviceIDs, id) {
+		return nil
+	}
+
+	return db.devices[id]
 }
 
 // removeDedicatedIP removes the device link for the given dedicated IP address
@@ -728,6 +757,18 @@ func (db *Default) removeDedicatedIP(ctx context.Context, ip netip.Addr) {
 
 	db.mapsMu.Lock()
 	defer db.mapsMu.Unlock()
+
+	// Recheck the data under the write lock, since the address could have
+	// been given to another device after the cleanup had been scheduled.
+	id, ok := db.dedicatedIPToDeviceID[ip]
+	if !ok {
+		return
+	}
+
+	d := db.attachedDevice(id)
+	if d != nil && slices.Contains(d.DedicatedIPs, ip) {
+		return
+	}
 
 	delete(db.dedicatedIPToDeviceID, ip)
 }
@@ -798,6 +839,18 @@ func (db *Default) removeHumanID(ctx context.Context, k humanIDKey) {
 	db.mapsMu.Lock()
 	defer db.mapsMu.Unlock()
 
+	// Recheck the data under the write lock, since the human-readable ID could
+	// have been given to another device after the cleanup had been scheduled.
+	id, ok := db.humanIDToDeviceID[k]
+	if !ok {
+		return
+	}
+
+	d := db.attachedDevice(id)
+	if d != nil && d.HumanIDLower == k.lower {
+		return
+	}
+
 	delete(db.humanIDToDeviceID, k)
 }
 
@@ -864,6 +917,18 @@ func (db *Default) removeLinkedIP(ctx context.Context, ip netip.Addr) {
 
 	db.mapsMu.Lock()
 	defer db.mapsMu.Unlock()
+
+	// Recheck the data under the write lock, since the address could have
+	// been linked to another device after the cleanup had been scheduled.
+	id, ok := db.linkedIPToDeviceID[ip]
+	if !ok {
+		return
+	}
+
+	d := db.attachedDevice(id)
+	if d != nil && d.LinkedIP == ip {
+		return
+	}
 
 	delete(db.linkedIPToDeviceID, ip)
 }
